@@ -45,8 +45,6 @@ def select(ctx, cases):
                 ess.append(c)       # whole domain on the rotated runner; all signals + 16 exit codes on the others
             elif not none and boundary and k != "ext":
                 ess.append(c)       # every child behaviour x the class boundaries, all four runner modes
-            elif not none and c["runner"] == rot and k == "raise":
-                ess.append(c)       # every child behaviour x every signal on the rotated runner
             else:
                 rest.append(c)      # the remaining part of the 9392-case space: until the time budget is used up
     rng.shuffle(ess)
